@@ -1392,27 +1392,40 @@ def hot_lines(prefix_dir):
     singleton_classes = set()
     seen_obj = set()
 
+    # NB: nothing here may run a5-defined code (the template must stay cold: a lazily initialised table
+    # behind a list subclass would be warmed by merely iterating it).  Only exact builtin containers are
+    # iterated; everything else is looked at through its instance __dict__ fetched with object.__getattribute__.
+    def inst_dict(o):
+        try:
+            d = object.__getattribute__(o, '__dict__')
+            return d if type(d) is dict else None
+        except Exception:
+            return None
+
     def visit(o, depth):
         if depth > 3 or id(o) in seen_obj or isinstance(o, plain):
             return
         seen_obj.add(id(o))
-        if isinstance(o, (list, tuple, set)):
-            for x in list(o)[:50]:
+        t = type(o)
+        if t in (list, tuple, set, frozenset):
+            for x in list.__iter__(o) if t is list else tuple(o)[:50] if t is tuple else ():
                 visit(x, depth + 1)
-        elif isinstance(o, dict):
-            for x in list(o.values())[:50]:
+        elif t is dict:
+            for x in list(dict.values(o))[:50]:
                 visit(x, depth + 1)
-        elif hasattr(o, '__dict__'):
-            singleton_classes.add(type(o))
-            for x in list(vars(o).values()):
-                visit(x, depth + 1)
+        else:
+            d = inst_dict(o)
+            if d is not None:
+                singleton_classes.add(t)
+                for x in list(dict.values(d)):
+                    visit(x, depth + 1)
 
     mutable_globals = set()
     for m in mods:
-        for g, v in list(vars(m).items()):
+        for g, v in list(dict.items(vars(m))):
             if g.startswith('__') or isinstance(v, plain) or type(v).__module__ in ('typing', 'types', 'builtins') and not isinstance(v, (list, dict, set, bytearray, tuple)):
                 continue
-            if isinstance(v, (list, dict, set, bytearray)) or hasattr(v, '__dict__'):
+            if isinstance(v, (list, dict, set, bytearray)) or inst_dict(v) is not None:
                 mutable_globals.add(g)
             visit(v, 0)
 
